@@ -1,7 +1,7 @@
 #!/usr/bin/env python3
 """Regenerates lean/GqlVerif/Gen/Bounds.lean from the non-test code of the modelled Rust files: every place
-where the code compares against, or cuts a sequence at, a numeric constant other than 0 and 1 - integer / float
-`const` and `static` items, comparison operators with a numeric literal >= 2 (or a float literal, or EPSILON) on one
+where the code compares against, or cuts a sequence at, a numeric constant other than 0, 1 and 2 (`len() >= 2` is `len() > 1`) - integer / float
+`const` and `static` items, comparison operators with a numeric literal >= 3 (or a float literal, or EPSILON) on one
 side, and `take / skip / nth / truncate / split_at / min / max / step_by / chunks` with such a literal, `% N` and array lengths `[_; N]`.  The model
 has no size, depth, count or precision threshold anywhere (lists, recursion and numbers are unbounded in it), so
 the theorems of Thm/TieBounds.lean state that these lists are empty; a cap added to the code (a nesting limit, a
@@ -79,14 +79,14 @@ def scan(path):
     for m in re.finditer(r"\b(?:const|static)\s+(?:mut\s+)?([A-Za-z_][A-Za-z0-9_]*)\s*:\s*" + INT + r"\s*=\s*([^;]*);", src):
         hits.append(f"const {m.group(1)} = {' '.join(m.group(2).split())}")
     for m in re.finditer(r"(?<![=\-<>&|])(>=|<=|==|!=|>|<)(?![=<>])\s*" + NUM + r"\b", src):
-        if value(m.group(2)) >= 2 or re.search(r"[.eE]", m.group(2)): hits.append(f"{m.group(1)} {m.group(2)}")
+        if value(m.group(2)) >= 3 or re.search(r"[.eE]", m.group(2)): hits.append(f"{m.group(1)} {m.group(2)}")
     for m in re.finditer(r"(?<![\w.])" + NUM + r"\s*(>=|<=|==|!=|>|<)(?![=<>])", src):
         if m.group(2) in (">",) and src[m.end():m.end() + 1] == ">": continue
-        if value(m.group(1)) >= 2 or re.search(r"[.eE]", m.group(1)): hits.append(f"{m.group(1)} {m.group(2)}")
+        if value(m.group(1)) >= 3 or re.search(r"[.eE]", m.group(1)): hits.append(f"{m.group(1)} {m.group(2)}")
     for m in re.finditer(r"\.\s*(take|skip|nth|truncate|split_at|min|max|step_by|chunks|windows|rev_take)\s*\(\s*" + NUM + r"\s*\)", src):
-        if value(m.group(2)) >= 2: hits.append(f".{m.group(1)}({m.group(2)})")
+        if value(m.group(2)) >= 3: hits.append(f".{m.group(1)}({m.group(2)})")
     for m in re.finditer(r"(%|;)\s*" + NUM + r"\s*(\]?)", src):
-        if (m.group(1) == "%" or m.group(3) == "]") and value(m.group(2)) >= 2: hits.append(f"{m.group(1)} {m.group(2)}{m.group(3)}")
+        if (m.group(1) == "%" or m.group(3) == "]") and value(m.group(2)) >= 3: hits.append(f"{m.group(1)} {m.group(2)}{m.group(3)}")
     for m in re.finditer(r"\bEPSILON\b|\bMAX_[A-Z_]+\b|\b[A-Z_]+_(?:LIMIT|MAX|BUDGET|CAP)\b", src):
         hits.append(m.group(0))
     return sorted(set(hits))
